@@ -524,7 +524,7 @@ theorem wf_shift {x y : AStr} (hw : WF x) (left right : Nat) (hl : y.len = x.len
     obtain ⟨k, hm, hk⟩ := mem_shiftKeys_false.mp hkp
     have hb := hw.bound _ hm
     simp at hb
-    exact hw.noAddEnd _ hm (by simp; omega)
+    exact hw.noAddEnd (k, kp.2) hm (by simp only; omega)
   ok := by rw [hf, replayOk_congr (map_snd_shiftKeys _ _ _)]; exact hw.ok
   nodup := by
     intro i
@@ -564,7 +564,7 @@ theorem wf_shiftKeep {x y : AStr} (hw : WF x) (num : Nat) (hl : y.len = x.len + 
     rw [hf] at hkp
     rcases mem_shiftKeys_true.mp hkp with ⟨h0, hm⟩ | ⟨k, _, hm, hk⟩
     · exact hw.noAddEnd _ hm (by omega)
-    · exact hw.noAddEnd _ hm (by simp; omega)
+    · exact hw.noAddEnd (k, kp.2) hm (by simp only; omega)
   ok := by rw [hf, replayOk_congr (map_snd_shiftKeys _ _ _)]; exact hw.ok
   nodup := by
     intro i
@@ -574,3 +574,345 @@ theorem wf_shiftKeep {x y : AStr} (hw : WF x) (num : Nat) (hl : y.len = x.len + 
     rw [hf, active_shiftKeep hw.sorted, hl, Nat.add_sub_cancel]
     exact hw.closed
   coherent := by rw [hf, settings_congr (map_snd_shiftKeys _ _ _)]; exact hw.coherent
+
+/-! ## Operation A: take the end point out, shift every key but 0, put the end point at the new end
+    (`center` with extension; `ljust` with extension and `assign_str` are `left = 0`) -/
+
+def padExt (f : Fmts) (n left L : Nat) : Fmts :=
+  match f.get? n with
+  | some p => (shiftKeys (f.erase n) left true).set L p
+  | none => shiftKeys (f.erase n) left true
+
+theorem sorted_padExt {f : Fmts} (hs : SortedKeys f) (n left L : Nat) :
+    SortedKeys (padExt f n left L) := by
+  unfold padExt
+  split
+  · exact Fmts.sorted_set (sorted_shiftKeys (Fmts.sorted_erase hs _) _ _) _ _
+  · exact sorted_shiftKeys (Fmts.sorted_erase hs _) _ _
+
+/-- keys of the shifted table without its end point stay below the new end -/
+theorem shifted_erase_lt {f : Fmts} (hs : SortedKeys f) {n left L : Nat}
+    (hb : ∀ kp ∈ f, kp.1 ≤ n) (hL : n + left < L) :
+    ∀ kp ∈ shiftKeys (f.erase n) left true, kp.1 < L := by
+  intro kp hkp
+  rcases mem_shiftKeys_true.mp hkp with ⟨h0, _⟩ | ⟨k, _, hm, hk⟩
+  · omega
+  · have h1 := (Fmts.mem_erase hs n _).mp hm
+    have := hb _ h1.1
+    simp at this; omega
+
+theorem mem_padExt {f : Fmts} {n left L : Nat} {kp : Nat × Point}
+    (hkp : kp ∈ padExt f n left L) :
+    (kp.1 = L ∧ (n, kp.2) ∈ f) ∨ kp ∈ shiftKeys (f.erase n) left true := by
+  unfold padExt at hkp
+  split at hkp
+  · rename_i p hg
+    rcases Fmts.mem_set hkp with e | e
+    · subst e; exact Or.inl ⟨rfl, Fmts.mem_of_get?_eq_some hg⟩
+    · exact Or.inr e
+  · exact Or.inr hkp
+
+theorem map_snd_padExt {f : Fmts} (hs : SortedKeys f) {n left L : Nat}
+    (hb : ∀ kp ∈ f, kp.1 ≤ n) (hL : n + left < L) :
+    (padExt f n left L).map (·.2) = f.map (·.2) := by
+  unfold padExt
+  split
+  · rename_i p hg
+    have hm := Fmts.mem_of_get?_eq_some hg
+    rw [Fmts.set_last p (shifted_erase_lt hs hb hL), List.map_append, map_snd_shiftKeys]
+    conv => rhs; rw [Fmts.erase_last hs hb hm]
+    rw [List.map_append]
+    rfl
+  · rename_i hg
+    rw [map_snd_shiftKeys, Fmts.erase_of_get?_none hs hg]
+
+theorem toFun_padExt {f : Fmts} (hs : SortedKeys f) {n left L : Nat}
+    (hb : ∀ kp ∈ f, kp.1 ≤ n) (hL : n + left < L) (j : Nat) :
+    Fmts.toFun (padExt f n left L) j =
+      if j = L then Fmts.toFun f n else Fmts.toFun (shiftKeys (f.erase n) left true) j := by
+  unfold padExt
+  split
+  · rename_i p hg
+    rw [Fmts.toFun_set (sorted_shiftKeys (Fmts.sorted_erase hs _) _ _)]
+    have : Fmts.toFun f n = p := Fmts.toFun_of_mem hs (Fmts.mem_of_get?_eq_some hg)
+    rw [this]
+  · rename_i hg
+    by_cases hj : j = L
+    · subst hj
+      rw [if_pos rfl, Fmts.toFun_of_not_mem (Fmts.not_mem_of_get?_eq_none hs hg)]
+      apply Fmts.toFun_of_not_mem
+      intro p hp
+      have := shifted_erase_lt hs hb hL _ hp
+      simp at this
+    · rw [if_neg hj]
+
+theorem active_padExt {x : AStr} (hw : WF x) {left L : Nat} (hL : x.len + left < L) (j : Nat) :
+    active (padExt x.fmts x.len left L) j =
+      if L ≤ j then [] else if j - left < x.len then act x (j - left) else lastAct x := by
+  have hs := hw.sorted
+  have hse := Fmts.sorted_erase hs x.len
+  rw [active_eq_activeFn _ (sorted_padExt hs _ _ _)]
+  have hg' := toFun_padExt hs hw.bound hL
+  have hh := Fmts.toFun_erase hs x.len
+  -- the shifted table, as a function
+  have hsh0 : Fmts.toFun (shiftKeys (x.fmts.erase x.len) left true) 0 =
+      Fmts.toFun (x.fmts.erase x.len) 0 := by
+    rw [toFun_shiftKeys_true hse, if_pos rfl]
+  have hsh1 : ∀ k, 0 < k → k ≤ left →
+      Fmts.toFun (shiftKeys (x.fmts.erase x.len) left true) k = {} := by
+    intro k h1 h2
+    rw [toFun_shiftKeys_true hse, if_neg (by omega), if_pos h2]
+  have hsh2 : ∀ k, 0 < k → Fmts.toFun (shiftKeys (x.fmts.erase x.len) left true) (k + left) =
+      Fmts.toFun (x.fmts.erase x.len) k := by
+    intro k h1
+    rw [toFun_shiftKeys_true hse, if_neg (by omega), if_neg (by omega), Nat.add_sub_cancel]
+  have hshb : ∀ k, L ≤ k → Fmts.toFun (shiftKeys (x.fmts.erase x.len) left true) k = {} := by
+    intro k hk
+    rw [toFun_shiftKeys_true hse, if_neg (by omega), if_neg (by omega), hh, if_neg (by omega)]
+    exact hw.toFun_beyond (by omega)
+  -- value of the shifted table at any index below the new end
+  have hbelow : ∀ i, activeFn (Fmts.toFun (shiftKeys (x.fmts.erase x.len) left true)) i =
+      if i - left < x.len then act x (i - left) else lastAct x := by
+    intro i
+    rw [activeFn_shiftKeep_sub hsh0 hsh1 hsh2 i]
+    by_cases hi : i - left < x.len
+    · rw [if_pos hi, activeFn_eraseEnd_lt hh hi, act_eq_activeFn hw]
+    · rw [if_neg hi]
+      exact activeFn_eraseEnd_ge hh (fun k hk => hw.toFun_beyond hk) (by omega)
+  by_cases hj : L ≤ j
+  · rw [if_pos hj, activeFn_setEnd_ge hg' hshb hj]
+    have hp : prevFn (Fmts.toFun (shiftKeys (x.fmts.erase x.len) left true)) L = lastAct x := by
+      cases hLe : L with
+      | zero => omega
+      | succ L' =>
+        show activeFn _ L' = _
+        rw [hbelow L', if_neg (by omega)]
+    rw [hp]
+    exact hw.step_last
+  · rw [if_neg hj, activeFn_setEnd_lt hg' (by omega)]
+    exact hbelow j
+
+theorem wf_padExt {x y : AStr} (hw : WF x) {left L : Nat} (hL : x.len + left < L)
+    (hl : y.len = L) (hf : y.fmts = padExt x.fmts x.len left L) : WF y where
+  sorted := by rw [hf]; exact sorted_padExt hw.sorted _ _ _
+  bound := by
+    intro kp hkp
+    rw [hf] at hkp
+    rcases mem_padExt hkp with ⟨h1, _⟩ | h
+    · omega
+    · have := shifted_erase_lt hw.sorted hw.bound hL kp h
+      omega
+  noAddEnd := by
+    intro kp hkp he
+    rw [hf] at hkp
+    rcases mem_padExt hkp with ⟨_, hm⟩ | h
+    · exact hw.noAddEnd (x.len, kp.2) hm rfl
+    · have := shifted_erase_lt hw.sorted hw.bound hL kp h
+      omega
+  ok := by rw [hf, replayOk_congr (map_snd_padExt hw.sorted hw.bound hL)]; exact hw.ok
+  nodup := by
+    intro i
+    rw [hf, active_padExt hw hL]
+    split
+    · simp
+    · split
+      · exact hw.nodup _
+      · exact lastAct_nodup hw
+  closed := by
+    rw [hf, active_padExt hw hL, hl, if_pos (Nat.le_refl _)]
+  coherent := by
+    rw [hf, settings_congr (map_snd_padExt hw.sorted hw.bound hL)]; exact hw.coherent
+
+/-! ## The model operations in terms of A, B, C -/
+
+set_option linter.unusedSimpArgs false
+
+namespace AStr
+
+theorem len_mk (s : Str) (f : Fmts) : (AStr.mk s f).len = s.length := rfl
+
+/-! ### `ljust` -/
+
+theorem ljust_noop' {x : AStr} {w : Int} (c : Char) (e : Bool) (h : (w - (x.len : Int)).toNat = 0) :
+    x.ljust w c e = x := by
+  unfold ljust
+  simp only [h, Nat.lt_irrefl, gt_iff_lt, if_false]
+
+theorem ljust_s (x : AStr) (w : Int) (c : Char) (e : Bool) :
+    (x.ljust w c e).s = x.s ++ List.replicate (w - (x.len : Int)).toNat c := by
+  unfold ljust
+  by_cases h : (w - (x.len : Int)).toNat > 0
+  · simp only [h, if_true]
+  · have : (w - (x.len : Int)).toNat = 0 := by omega
+    simp only [this, Nat.lt_irrefl, gt_iff_lt, if_false, List.replicate_zero, List.append_nil,
+      List.nil_append, Nat.zero_div, Nat.sub_self]
+
+theorem ljust_len (x : AStr) (w : Int) (c : Char) (e : Bool) :
+    (x.ljust w c e).len = x.len + (w - (x.len : Int)).toNat := by
+  unfold len; rw [ljust_s]; simp [len]
+
+theorem ljust_fmts_plain (x : AStr) (w : Int) (c : Char) : (x.ljust w c false).fmts = x.fmts := by
+  unfold ljust
+  simp only [Bool.false_eq_true, if_false]
+  split <;> rfl
+
+theorem ljust_fmts_ext {x : AStr} (hs : SortedKeys x.fmts) {w : Int} (c : Char)
+    (h : 0 < (w - (x.len : Int)).toNat) :
+    (x.ljust w c true).fmts = padExt x.fmts x.len 0 (x.len + (w - (x.len : Int)).toNat) := by
+  unfold ljust padExt
+  simp only [gt_iff_lt, h, if_true, shiftKeys_zero]
+  cases hg : x.fmts.get? x.len with
+  | none => simp only; exact (Fmts.erase_of_get?_none hs hg).symm
+  | some p => rfl
+
+theorem act_ljust_plain (x : AStr) (w : Int) (c : Char) (j : Nat) :
+    act (x.ljust w c false) j = act x j := by
+  unfold act; rw [ljust_fmts_plain]
+
+theorem act_ljust_ext {x : AStr} (hw : WF x) {w : Int} (c : Char)
+    (h : 0 < (w - (x.len : Int)).toNat) (j : Nat) :
+    act (x.ljust w c true) j =
+      if x.len + (w - (x.len : Int)).toNat ≤ j then [] else if j < x.len then act x j else lastAct x := by
+  unfold act
+  rw [ljust_fmts_ext hw.sorted c h, active_padExt hw (by omega)]
+  rfl
+
+theorem ljust_wf' {x : AStr} (hw : WF x) (w : Int) (c : Char) (e : Bool) : WF (x.ljust w c e) := by
+  by_cases h : 0 < (w - (x.len : Int)).toNat
+  · cases e with
+    | true => exact wf_padExt hw (by omega) (ljust_len x w c true) (ljust_fmts_ext hw.sorted c h)
+    | false =>
+      exact wf_shift hw 0 (w - (x.len : Int)).toNat (by rw [ljust_len]; omega)
+        (by rw [ljust_fmts_plain, shiftKeys_zero])
+  · rw [ljust_noop' c e (by omega)]; exact hw
+
+/-! ### `rjust` -/
+
+theorem rjust_noop' {x : AStr} {w : Int} (c : Char) (e : Bool) (h : (w - (x.len : Int)).toNat = 0) :
+    x.rjust w c e = x := by
+  unfold rjust
+  simp only [h, Nat.lt_irrefl, gt_iff_lt, if_false]
+
+theorem rjust_s (x : AStr) (w : Int) (c : Char) (e : Bool) :
+    (x.rjust w c e).s = List.replicate (w - (x.len : Int)).toNat c ++ x.s := by
+  unfold rjust
+  by_cases h : (w - (x.len : Int)).toNat > 0
+  · simp only [h, if_true]
+  · have : (w - (x.len : Int)).toNat = 0 := by omega
+    simp only [this, Nat.lt_irrefl, gt_iff_lt, if_false, List.replicate_zero, List.append_nil,
+      List.nil_append, Nat.zero_div, Nat.sub_self]
+
+theorem rjust_len (x : AStr) (w : Int) (c : Char) (e : Bool) :
+    (x.rjust w c e).len = x.len + (w - (x.len : Int)).toNat := by
+  unfold len; rw [rjust_s]; simp [len]; omega
+
+theorem rjust_fmts (x : AStr) (w : Int) (c : Char) (e : Bool) :
+    (x.rjust w c e).fmts = shiftKeys x.fmts (w - (x.len : Int)).toNat e := by
+  unfold rjust
+  by_cases h : (w - (x.len : Int)).toNat > 0
+  · simp only [h, if_true, Bool.false_eq_true, if_false]
+  · have : (w - (x.len : Int)).toNat = 0 := by omega
+    simp only [this, Nat.lt_irrefl, gt_iff_lt, if_false, shiftKeys_zero, Nat.zero_div]
+
+theorem act_rjust_ext {x : AStr} (hw : WF x) (w : Int) (c : Char) (j : Nat) :
+    act (x.rjust w c true) j = act x (j - (w - (x.len : Int)).toNat) := by
+  unfold act; rw [rjust_fmts, active_shiftKeep hw.sorted]
+
+theorem act_rjust_plain {x : AStr} (hw : WF x) (w : Int) (c : Char) (j : Nat) :
+    act (x.rjust w c false) j =
+      if j < (w - (x.len : Int)).toNat then [] else act x (j - (w - (x.len : Int)).toNat) := by
+  unfold act; rw [rjust_fmts, active_shift hw.sorted]
+
+theorem rjust_wf' {x : AStr} (hw : WF x) (w : Int) (c : Char) (e : Bool) : WF (x.rjust w c e) := by
+  cases e with
+  | true => exact wf_shiftKeep hw _ (rjust_len x w c true) (rjust_fmts x w c true)
+  | false => exact wf_shift hw _ 0 (rjust_len x w c false) (rjust_fmts x w c false)
+
+/-! ### `center` -/
+
+theorem center_noop' {x : AStr} {w : Int} (c : Char) (e : Bool) (h : (w - (x.len : Int)).toNat = 0) :
+    x.center w c e = x := by
+  unfold center
+  simp only [h, Nat.lt_irrefl, gt_iff_lt, if_false]
+
+theorem center_s (x : AStr) (w : Int) (c : Char) (e : Bool) :
+    (x.center w c e).s = List.replicate ((w - (x.len : Int)).toNat / 2) c ++ x.s ++
+      List.replicate ((w - (x.len : Int)).toNat - (w - (x.len : Int)).toNat / 2) c := by
+  unfold center
+  by_cases h : (w - (x.len : Int)).toNat > 0
+  · simp only [h, if_true]
+  · have : (w - (x.len : Int)).toNat = 0 := by omega
+    simp only [this, Nat.lt_irrefl, gt_iff_lt, if_false, List.replicate_zero, List.append_nil,
+      List.nil_append, Nat.zero_div, Nat.sub_self]
+
+theorem center_len (x : AStr) (w : Int) (c : Char) (e : Bool) :
+    (x.center w c e).len = x.len + (w - (x.len : Int)).toNat := by
+  unfold len; rw [center_s]; simp [len]; omega
+
+theorem center_fmts_plain (x : AStr) (w : Int) (c : Char) :
+    (x.center w c false).fmts = shiftKeys x.fmts ((w - (x.len : Int)).toNat / 2) false := by
+  unfold center
+  by_cases h : (w - (x.len : Int)).toNat > 0
+  · simp only [h, if_true, Bool.false_eq_true, if_false]
+  · have : (w - (x.len : Int)).toNat = 0 := by omega
+    simp only [this, Nat.lt_irrefl, gt_iff_lt, if_false, shiftKeys_zero, Nat.zero_div]
+
+theorem center_fmts_ext (x : AStr) {w : Int} (c : Char) (h : 0 < (w - (x.len : Int)).toNat) :
+    (x.center w c true).fmts =
+      padExt x.fmts x.len ((w - (x.len : Int)).toNat / 2) (x.len + (w - (x.len : Int)).toNat) := by
+  unfold center padExt
+  simp only [gt_iff_lt, h, if_true]
+  have hl : (List.replicate ((w - (x.len : Int)).toNat / 2) c ++ x.s ++
+      List.replicate ((w - (x.len : Int)).toNat - (w - (x.len : Int)).toNat / 2) c).length =
+      x.len + (w - (x.len : Int)).toNat := by
+    simp [len]; omega
+  rw [hl]
+  cases hg : x.fmts.get? x.len <;> rfl
+
+theorem act_center_plain {x : AStr} (hw : WF x) (w : Int) (c : Char) (j : Nat) :
+    act (x.center w c false) j =
+      if j < (w - (x.len : Int)).toNat / 2 then [] else act x (j - (w - (x.len : Int)).toNat / 2) := by
+  unfold act; rw [center_fmts_plain, active_shift hw.sorted]
+
+theorem act_center_ext {x : AStr} (hw : WF x) {w : Int} (c : Char)
+    (h : 0 < (w - (x.len : Int)).toNat) (j : Nat) :
+    act (x.center w c true) j =
+      if x.len + (w - (x.len : Int)).toNat ≤ j then []
+      else if j - (w - (x.len : Int)).toNat / 2 < x.len then act x (j - (w - (x.len : Int)).toNat / 2)
+      else lastAct x := by
+  unfold act
+  rw [center_fmts_ext x c h, active_padExt hw (by omega)]
+  rfl
+
+theorem center_wf' {x : AStr} (hw : WF x) (w : Int) (c : Char) (e : Bool) : WF (x.center w c e) := by
+  by_cases h : 0 < (w - (x.len : Int)).toNat
+  · cases e with
+    | true => exact wf_padExt hw (by omega) (center_len x w c true) (center_fmts_ext x c h)
+    | false =>
+      exact wf_shift hw _ ((w - (x.len : Int)).toNat - (w - (x.len : Int)).toNat / 2)
+        (by rw [center_len]; omega) (center_fmts_plain x w c)
+  · rw [center_noop' c e (by omega)]; exact hw
+
+/-! ### `assign_str` with a text that is not shorter -/
+
+theorem assignStr_s (x : AStr) (t : Str) : (x.assignStr t).s = t := by
+  unfold assignStr
+  simp only
+  split
+  · split <;> rfl
+  · split <;> rfl
+
+theorem assignStr_fmts_longer {x : AStr} (hs : SortedKeys x.fmts) {t : Str} (h : x.len < t.length) :
+    (x.assignStr t).fmts = padExt x.fmts x.len 0 t.length := by
+  unfold assignStr padExt
+  simp only [gt_iff_lt, h, if_true, shiftKeys_zero]
+  cases hg : x.fmts.get? x.len with
+  | none => simp only; exact (Fmts.erase_of_get?_none hs hg).symm
+  | some p => rfl
+
+theorem assignStr_fmts_same {x : AStr} {t : Str} (h : x.len = t.length) :
+    (x.assignStr t).fmts = x.fmts := by
+  unfold assignStr
+  simp [h]
+
+end AStr
